@@ -92,7 +92,4 @@ def run(ctx, env):
             ctx.ob("R8.1", path, "atom:%s" % ep, ok,
                    "position %d: emits %s (%s bytes, %s, loop %s%s); parser reads %s (%s bytes, loop %s)" % (i, norm(c[1]), c[2], c[3], tuple(norm(x) for x in lp), (", under condition %s" % (cd,)) if cd else "", ep, ew, el))
             ctx.ob("R8.2", path, "codec:%s" % ep, (ed, c[3]) in INVERSE, "decoder %s / encoder %s" % (ed, c[3]))
-        # structure: exactly one loop, over self.flowsets
-        loops = [(sorted(cs)[0], s) for (cs, s, d, h) in ex.loopinfo]
-        ctx.ob("R8.1", path, "single-record-loop", len(loops) == 1 and norm(loops[0][1]) == "self.flowsets", "loops: %s" % [l[1] for l in loops])
     ctx.floor("R8.1", "crate", "atoms compared", total, 57)
